@@ -733,7 +733,16 @@ pub fn run(r: &Request) -> String {
     };
     if !outp.status.success() {
         let e = String::from_utf8_lossy(&outp.stderr);
-        let class = if e.contains("panicked") { "panic" } else { "err:nonzero-exit" };
+        // the one panic with a name of its own: `group_digests` indexing an empty digest list (a pre-filter FASTA
+        // chunk none of whose proteins yields a peptide)
+        let class = if e.contains("panicked") {
+            if e.contains("enzyme.rs") && e.contains("the len is 0 but the index is 0") { "panic:empty-digest-list" } else { "panic" }
+        } else {
+            "err:nonzero-exit"
+        };
+        if std::env::var("VERIF_C01_STDERR").is_ok() {
+            eprintln!("{}", e);
+        }
         return class.to_string();
     }
     let tsv = match read_table(&outdir.join("results.sage.tsv")) {
@@ -929,16 +938,21 @@ fn random_cfg(rng: &mut Rng) -> Cfg {
         _ => ("KR", Some(b'P'), true),
     };
     let semi = enzyme == 5;
-    let statics = match rng.below(3) {
+    // a static and a variable modification may target the same terminus (`^` static with `^` / `[` variable):
+    // the variable one, applied first, blocks the static one -- the two never add up (seeded C01-H)
+    let statics = match rng.below(5) {
         0 => vec![],
         1 => vec![("C".to_string(), 57.0215f32)],
-        _ => vec![("C".to_string(), 57.0215f32), ("K".to_string(), 229.1629f32)],
+        2 => vec![("C".to_string(), 57.0215f32), ("K".to_string(), 229.1629f32)],
+        3 => vec![("^".to_string(), 229.1629f32), ("K".to_string(), 229.1629f32)],
+        _ => vec![("C".to_string(), 57.0215f32), ("^".to_string(), 229.1629f32), ("$".to_string(), 14.0157f32)],
     };
-    let vars = match rng.below(4) {
+    let vars = match rng.below(5) {
         0 => vec![],
         1 => vec![("M".to_string(), vec![15.9949f32])],
         2 => vec![("M".to_string(), vec![15.9949f32]), ("^".to_string(), vec![42.0106f32])],
-        _ => vec![("M".to_string(), vec![15.9949f32]), ("[".to_string(), vec![42.0106f32]), ("S".to_string(), vec![79.9663f32])],
+        3 => vec![("M".to_string(), vec![15.9949f32]), ("[".to_string(), vec![42.0106f32]), ("S".to_string(), vec![79.9663f32])],
+        _ => vec![("^".to_string(), vec![42.0106f32]), ("$".to_string(), vec![-0.9840f32]), ("]".to_string(), vec![17.0265f32])],
     };
     let ptol = if rng.chance(2, 3) { (0u8, -20.0f32, 20.0f32) } else { (1u8, -0.5f32, 0.5f32) };
     let ftol = if rng.chance(2, 3) { (0u8, -20.0f32, 20.0f32) } else { (1u8, -0.02f32, 0.02f32) };
